@@ -142,7 +142,14 @@ def dyn_item(item):
         pt = K.build_pt(op, mem, unique, eps)
         return {c: K.run_pt(pt, d, v, c[0], c[1]) for c in combos}
 
-    ref = runner("id")
+    K.take_retries()
+    try:
+        ref = runner("id")
+    except Exception as ex:  # noqa  (the run in the eigenbasis itself fails: reported, nothing to compare with)
+        return [{"key": [method, list(ev), mem, unique, eps, c[0], c[1], "id"], "dev": None,
+                 "cls": f"dyn|{method}|d{d}|diag|{ev_class(ev)}|exception:{K.exc_name(ex)}",
+                 "what": f"reference run in the eigenbasis: {K.exc_name(ex)}: {str(ex)[:80]}", "infl": 0.0,
+                 "changed": 0.0, "nondiag": False, "retries": K.take_retries()} for c in combos]
     infl = {}
     for c in combos:
         if method == "mf":
@@ -174,6 +181,8 @@ def dyn_item(item):
                                f"|V^dag rho' V - rho| = {dev if dev is None else format(dev, '.2e')} > {tol(eps):.1e}"
                                f" first at step {first}; bath influence {infl[c]:.2f}")
             recs.append(rec)
+    if recs:
+        recs[0]["retries"] = K.take_retries()
     return recs
 
 
@@ -235,9 +244,11 @@ def run(tier, seed):
     maxdev = {}
     min_infl = None
     trivial = 0
+    retries = 0
     for it, recs in zip(items, res):
         for r in recs:
             n_eval += 1
+            retries += r.get("retries", 0)
             eps = r["key"][4]
             if r["cls"]:
                 rp = {"part": "dyn", "key": r["key"]}
@@ -280,6 +291,7 @@ def run(tier, seed):
         "max_dev_over_tol": worst,
         "min_bath_influence_nontrivial": min_infl,
         "min_influence_required": MIN_INFLUENCE,
+        "diagnostic_lapack_svd_retries": retries,
     }
     rep.assumptions = [
         "metamorphic oracle: the reference of every dynamics case is the library's own run in the eigenbasis of the "
@@ -287,6 +299,10 @@ def run(tier, seed):
         "max_dev excludes cases already reported as state-mismatch (it is the measured noise floor of passing cases)",
         "the unitary family is fixed and deterministic (two 'generic' members stand in for Haar-random ones); no claim "
         "for other unitaries or eigenvalues",
+        "LinAlgError('SVD did not converge') raised by LAPACK gesdd inside tensornetwork is input-bit dependent (the same "
+        "call fails in about 1 of 4 executions for some degenerate operators with unique=False); such a run is retried "
+        f"up to {K.SVD_RETRIES} times and only a persistent failure is reported; the number of retries of a run is the "
+        "only coverage entry that is not reproducible (diagnostic_lapack_svd_retries)",
         "dimension 5 is decided at the Bath level in both tiers and for the dynamics in the thorough tier (cut-off "
         "memory settings only)",
     ]
